@@ -255,7 +255,7 @@ def replay_acc(data):
 def replay(data):
     if data.get('mode') == 'capture': return replay_capture(data)
     if data.get('mode') == 'acc': return replay_acc(data)
-    if data.get('mode') in ('boundary', 'e2e'): return wsim.replay(data)
+    if data.get('mode') in ('boundary', 'e2e', 'glue'): return wsim.replay(data)
     prob = wave.concrete_lemma(data)
     return bool(prob), str(prob)
 
@@ -267,6 +267,7 @@ def run(tier, seed):
     rep.merge(common.pmap(capture_job, capture_jobs(tier), chunksize=1))
     rep.merge(common.pmap(acc_job, acc_jobs(tier), chunksize=1))
     rep.merge(common.pmap(wsim.e2e_job, wsim.e2e_jobs(tier, seed, {'OVLID'}, light=True), chunksize=1))
+    rep.merge(common.pmap(wsim.glue_job, wsim.glue_jobs(tier, seed), chunksize=4))          # schedule / memory-map obligations the induction relies on
     # reachability twin: a capture expectation that is off by one must be refuted
     tw = replay_capture({'cls': 'cpu', 'n': 2, 'tmin': 1, 'term': 'max', 'ordered': True, 'ts': [1.0, 2.0], 'tcap': 1.5})
     if tw[0]: rep.error(f'capture replay oracle disagrees with the unchanged code on a plain case: {tw[1]}')
